@@ -283,6 +283,12 @@ struct FeWorld : World {
                 left -= len;
                 calls++;
             }
+            if (u + 1 < nutt && r.chance(0.12)) { // given up without fe_end: the next fe_start must begin from scratch all the same
+                Json ab = Json::object();
+                ab.set("op", "abandon");
+                ops.push(ab);
+                continue;
+            }
             Json eo = Json::object();
             eo.set("op", "end");
             eo.set("cap", (long long)r.range(1, 3));
@@ -567,6 +573,10 @@ struct FeWorld : World {
                 finish_utt(opi, (int)std::max<int64_t>(1, op.geti("cap", 1)));
                 in_utt = false;
                 utt++;
+            } else if (o == "abandon") {
+                in_utt = false; // no fe_end: whatever the front end holds is stale when the next utterance starts
+                utt++;
+                out.probes["fe.utterance_abandoned"]++;
             }
             if (!out.violations.empty())
                 break;
